@@ -145,6 +145,9 @@ func (fr *frame) runDefer(d *deferred) {
 			if ag, isAbort := r.(abortG); isAbort {
 				panic(ag)
 			}
+			if ce, isCrash := r.(crashEnd); isCrash {
+				panic(ce)
+			}
 			fr.panicking = true
 			fr.panicVal = r
 		}
@@ -284,6 +287,8 @@ func (fr *frame) run() {
 		case engineError:
 			panic(r)
 		case abortG:
+			panic(r)
+		case crashEnd:
 			panic(r)
 		case targetPanic:
 		default:
